@@ -13,7 +13,8 @@ are non-strict and stay inside the space (`Problem.WF`, checked by the driver wi
 * `mip_spec_partial`   the enumeration: exact when every integer variable is bounded in the
                        relaxation — what is missing: integer variables without a finite range
                        (the reference then says `unknownUnboundedIntVar`, and the driver falls
-                       back to the one-sided judges `mip_relaxation_bound` and `window_sound`);
+                       back to `unbounded_of_point_and_ray` (decisive for "unbounded") and to the
+                       one-sided judges `mip_relaxation_bound` and `window_sound`);
 * `mip_ref_sound`      whatever `mipRef` answers (≠ unknown) is true — no boundedness hypothesis;
 * `witness_check`      the witness checker decides feasibility ∧ objective value exactly;
 * `no_better_sound`    the `noBetter` certificate;
@@ -104,6 +105,25 @@ theorem mip_relaxation_bound (P : Problem) (hwf : P.WF) :
     rw [Set.eq_empty_iff_forall_notMem] at this
     exact this x hx.1
   · exact ((h3 r).mp h).2 x hx.1
+
+/-- **Unbounded, decisively, whatever the ranges of the integer variables.**  One feasible point of
+    the MIP (e.g. the library's own `feasible_point()`, verified by `feasible_check`) together with a
+    recession direction of the relaxation that improves the objective (found and verified by K1:
+    `rayExists`) proves that feasible points with arbitrarily good value exist.  (The direction is
+    rational, so a multiple of it keeps the integer variables integral.) -/
+theorem unbounded_of_point_and_ray (P : Problem) (x : Val) (hx : Feasible P x)
+    (hwf : P.WF) (hray : rayExists P = true) : IsUnbounded P := by
+  obtain ⟨h1, -, h3, -⟩ := hwf
+  unfold rayExists at hray
+  obtain ⟨d, hd⟩ := (feasible_iff P.n _ (rayRows_wf P.n _ P.cs h1 (maxObj_length P h3))).mp hray
+  have := unbounded_max_of_point_and_ray P.maxObj.1 P.maxObj.2 P.ints P.cs x d hx hd
+  have h := isAnswer_of_correct P .unbounded this rfl
+  have hb : P.back .unbounded = .unbounded := by unfold Problem.back; split <;> rfl
+  rw [hb] at h
+  exact h
+
+-- {2x ≥ 1}, x integer, maximise x: the reference enumeration says `unknown`, the ray x ↦ x + 1 exists
+example : rayExists ⟨1, [geRow [2] (-1)], [0], ⟨[1], 0⟩, true⟩ = true := by decide +kernel
 
 /-- **One-sided judge 2**: confining the integer variables to `[-B, B]` only removes feasible
     points, so an optimum / unboundedness of the confined problem is witnessed in the original:
